@@ -199,8 +199,10 @@ Hypothesis Hscalar : forall p ch, nth_error input p = Some ch -> is_scalar ch = 
 (* the repeated term: one character, or one character of a set *)
 Definition single (c : op) : Prop :=
   match c with OCls s => InvList.wf s = true | OAtom [x] => (x <= max_cp)%N | _ => False end.
-(* the term that follows: a literal or a class *)
+(* the term that follows: a literal, a class, or '$' *)
 Definition leaf_follower (o : op) : Prop :=
+  match o with OCls s => InvList.wf s = true | OAtom (y :: _) => (y <= max_cp)%N | OEol => True | _ => False end.
+Definition char_follower (o : op) : Prop :=
   match o with OCls s => InvList.wf s = true | OAtom (y :: _) => (y <= max_cp)%N | _ => False end.
 
 Lemma single_one c : single c -> forall p, Rop c p = [] \/ Rop c p = [p + N.to_nat 1].
@@ -216,7 +218,7 @@ Lemma skipn_head (l : list N) p : skipn p l = match nth_error l p with Some c =>
 Proof. revert p. induction l as [|x t IH]; intros [|p]; cbn [skipn nth_error]; try reflexivity. rewrite IH. destruct (nth_error t p); reflexivity. Qed.
 
 (* a match of a single-character term, or of a leaf, starts with a character of its first set *)
-Lemma first_char_in o p : (single o \/ leaf_follower o) -> Rop o p <> [] ->
+Lemma first_char_in o p : (single o \/ char_follower o) -> Rop o p <> [] ->
   exists ch, nth_error input p = Some ch /\ mem (icc false o) ch = true.
 Proof.
   intros Ho Hne. destruct o as [| | | |cs|st| | | | | | | |]; try (destruct Ho; contradiction).
@@ -234,20 +236,33 @@ Proof.
     destruct (mem st ch) eqn:E; [|contradiction]. exists ch. split; [reflexivity|exact E].
 Qed.
 
+Lemma classic_follower nxt : leaf_follower nxt -> char_follower nxt \/ nxt = OEol.
+Proof. destruct nxt as [| | | |cs|st| | | | | | | |]; cbn; try contradiction; auto. Qed.
+
 Theorem no_ambiguity_leaf_sound c nxt reluctant : single c -> leaf_follower nxt ->
   no_ambiguity c nxt false reluctant = true ->
   forall q, hit (Rop c) q -> Rop nxt q = [].
 Proof.
   intros Hc Hn Hna q Hh.
-  assert (Hd : is_disjoint disjoint_threshold (icc false c) (icc false nxt) = true).
-  { unfold no_ambiguity in Hna. destruct nxt; try contradiction.
-    - destruct cs as [|y t]; [contradiction|]. exact Hna.
-    - exact Hna. }
-  destruct (Rop nxt q) eqn:E; [reflexivity|exfalso].
   destruct (first_char_in c q (or_introl Hc) Hh) as (ch & Hch & Hm1).
-  destruct (first_char_in nxt q (or_intror Hn)) as (ch' & Hch' & Hm2); [rewrite E; discriminate|].
-  rewrite Hch in Hch'. injection Hch' as <-.
-  pose proof (is_disjoint_sound _ _ _ ch Hd (Hscalar q ch Hch) Hm2). congruence.
+  destruct (classic_follower nxt Hn) as [Hcf|Heol].
+  - assert (Hd : is_disjoint disjoint_threshold (icc false c) (icc false nxt) = true).
+    { unfold no_ambiguity in Hna. destruct nxt as [| | | |cs|st| | | | | | | |]; try contradiction.
+      - destruct cs as [|y t]; [contradiction|]. exact Hna.
+      - exact Hna. }
+    destruct (Rop nxt q) eqn:E; [reflexivity|exfalso].
+    destruct (first_char_in nxt q (or_intror Hcf)) as (ch' & Hch' & Hm2); [rewrite E; discriminate|].
+    rewrite Hch in Hch'. injection Hch' as <-.
+    pose proof (is_disjoint_sound _ _ _ ch Hd (Hscalar q ch Hch) Hm2). congruence.
+  - (* '$' : the repeated term does not match a newline, and a match of it is not at the end *)
+    subst nxt. unfold no_ambiguity in Hna. apply negb_true_iff in Hna.
+    assert (Hq : q < n) by (apply nth_error_Some; congruence).
+    assert (Hnl : ch <> 10%N) by (intros ->; congruence).
+    unfold Rop. cbn [EngineFacts.Rop]. fold n. unfold is_nl. rewrite Hch.
+    replace (Nat.eqb n 0) with false by (symmetry; apply Nat.eqb_neq; lia).
+    replace (Nat.leb n q) with false by (symmetry; apply Nat.leb_gt; lia).
+    replace (N.eqb ch 10) with false by (symmetry; apply N.eqb_neq; exact Hnl).
+    destruct multi; reflexivity.
 Qed.
 
 (* the optimiser's rewriting step, on the results: a counted repeat of a single-character term
